@@ -248,7 +248,7 @@ func (w *kqueue) Close() error {
 
 	pathsToRemove := w.watches.listPaths(false)
 	for _, name := range pathsToRemove {
-		w.Remove(name)
+		w.remove(name, true, true)
 	}
 
 	unix.Close(w.closepipe[1]) // Send "quit" message to readEvents
@@ -281,11 +281,13 @@ func (w *kqueue) Remove(name string) error {
 		fmt.Fprintf(os.Stderr, "FSNOTIFY_DEBUG: %s  Remove(%q)\n",
 			time.Now().Format("15:04:05.000000000"), name)
 	}
-	return w.remove(name, true)
+	return w.remove(name, true, false)
 }
 
-func (w *kqueue) remove(name string, unwatchFiles bool) error {
-	if w.isClosed() {
+// closing is set when called from Close(), which has already marked the
+// watcher as closed but still needs to release the watches.
+func (w *kqueue) remove(name string, unwatchFiles, closing bool) error {
+	if !closing && w.isClosed() {
 		return nil
 	}
 
@@ -487,7 +489,7 @@ func (w *kqueue) readEvents() {
 			event := w.newEvent(path.name, path.linkName, mask)
 
 			if event.Has(Rename) || event.Has(Remove) {
-				w.remove(event.Name, false)
+				w.remove(event.Name, false, false)
 				w.watches.markSeen(event.Name, false)
 			}
 
